@@ -33,11 +33,15 @@ package cfg
 // an element-wise prefix of it; prefix(short, long) is the uninterpreted outcome
 // of slices.Equal(short, long[:len(short)]) - so "listing a path and a descendant is
 // the same as listing the path alone", and dotted key names are compared as path
-// elements, never as joined strings.  sort.Slice is trusted to order by the length
-// comparator (closure verified below).
+// elements, never as joined strings.  An empty list is an error (never a
+// silently empty path set), and no empty path is put on the list (an empty selector is
+// an error).  sort.Slice is trusted to order by the length comparator (closure verified
+// below).
 
 //@ func ParseNestedFields
 //@   ghost lastEq bool = false
+//@   ensures len(fields) == 0 ==> result1 != nil
+//@   assert at "paths = append(paths, path)" len(path) >= 1
 //@   loop 1 invariant true
 //@   loop 2 invariant !sameblock(result, paths) && rangeindex#2 < len(paths) && (forall a, b :: 0 <= a && a < b && b < len(paths) ==> len(paths[a]) <= len(paths[b]))
 //@   loop 3 invariant !sameblock(result, paths) && rangeindex#3 < i && i == rangeindex#2 && i < len(paths) && ok && longPath == paths[i]
